@@ -4,16 +4,10 @@ import TaRs.Lemmas.Core.BollingerBands
 import TaRs.Gen.BollingerBands
 import TaRs.Lemmas.StandardDeviation
 import TaRs.Lemmas.Total.BollingerBands
+import TaRs.Lemmas.Bar.BollingerBands
 namespace TaRs.Gen.BollingerBands
 open TaRs TaRs.Rs
 variable {F : Type} [Scalar F]
-
-/-- wiring of the bar path: WHICH field of the bar `next(&bar)` reads (a value-level fact, hence
-    here and not among the value-agnostic totality lemmas) -/
-theorem nextBar_eq (s : BollingerBands F) (b : Bar F) : s.nextBar b = s.next b.close := by
-  unfold nextBar
-  try simp only [gen_helper]
-  cases h : s.next b.close <;> simp [h]
 
 /-- BB = SD plus `mean ± multiplier·sd` (the mean is the SD's own running mean, read AFTER
     the update) -/
